@@ -1093,6 +1093,10 @@ class TwoDSpectrumBase(DataSaveable):
             identify the pathway
             
         """
+        if resolution is not None:
+            # raises an Exception for an unknown resolution
+            _resolution2number(resolution)
+            
         if not self.storage_initialized:
             self._d__data = {}
             self.storage_initialized =  True
